@@ -431,6 +431,63 @@ func schedWorker(args []string) {
 // ---------------------------------------------------------------------------
 // C04 (b): change sensitivity, exhaustive over a universe, free-running real code
 
+// freeHash calls the real Hash free-running (no controlled scheduler) without letting a panic
+// in one of its goroutines, or a call that never returns, take the check down: crash != ""
+// then says what happened.
+var freeHashMu sync.Mutex
+
+func freeHash(l []string) (d string, err error, crash string) {
+	freeHashMu.Lock()
+	defer freeHashMu.Unlock()
+	var mu sync.Mutex
+	var panics []string
+	vsched.FreePanic = func(v any) {
+		mu.Lock()
+		panics = append(panics, fmt.Sprint(v))
+		mu.Unlock()
+	}
+	defer func() { vsched.FreePanic = nil }()
+	type res struct {
+		d   string
+		err error
+		p   string
+	}
+	done := make(chan res, 1)
+	go func() {
+		defer func() {
+			if r := recover(); r != nil {
+				done <- res{p: fmt.Sprint(r)}
+			}
+		}()
+		d, err := hash.New().Hash(l)
+		done <- res{d: d, err: err}
+	}()
+	select {
+	case r := <-done:
+		mu.Lock()
+		defer mu.Unlock()
+		if r.p != "" {
+			return "", nil, "panic: " + r.p
+		}
+		if len(panics) > 0 {
+			return r.d, r.err, "panic in a goroutine of the call: " + panics[0]
+		}
+		return r.d, r.err, ""
+	case <-time.After(60 * time.Second):
+		mu.Lock()
+		defer mu.Unlock()
+		if len(panics) > 0 {
+			return "", nil, "panic in a goroutine of the call (" + panics[0] + "), after which the call never returned"
+		}
+		return "", nil, "the call did not return within 60 s"
+	}
+}
+
+// freeHashReport turns a crashed free-running call into a violation of the running property.
+func freeHashReport(run *ev.Run, what string, crash string) {
+	run.Report(ev.Violation{Key: "free-running crash " + what, Class: "hash-call-crashed", What: fmt.Sprintf("%s: free-running Hash call: %s (no digest on this schedule, a digest on others)", what, crash), Case: map[string]any{"free_running": what}})
+}
+
 type sensFile struct {
 	Path     string
 	Contents []string
@@ -493,7 +550,11 @@ func c04Sensitivity(run *ev.Run, tier string) (collections int, pairs int64) {
 			if pi == 0 {
 				l = append(l, root)
 			}
-			d, err := hash.New().Hash(l)
+			d, err, crash := freeHash(l)
+			if crash != "" {
+				freeHashReport(run, "collection {"+strings.Join(desc, ", ")+"}", crash)
+				return
+			}
 			if err != nil {
 				run.Report(ev.Violation{Key: "sens " + strings.Join(desc, ","), Class: "error-on-readable-files", What: fmt.Sprintf("collection {%s}: Hash returned error %v", strings.Join(desc, ", "), err), Case: map[string]any{"collection": desc}})
 				return
@@ -509,11 +570,11 @@ func c04Sensitivity(run *ev.Run, tier string) (collections int, pairs int64) {
 		// tell collections apart (a content change must never cancel out)
 		if len(files) > 0 {
 			dbl := append(append([]string{}, files...), files...)
-			if d, err := hash.New().Hash(dbl); err == nil {
+			if d, err, crash := freeHash(dbl); err == nil && crash == "" {
 				shapes["all-twice"] = append(shapes["all-twice"], coll{strings.Join(desc, ", "), d})
 			}
 			one := append(append([]string{}, files...), files[0])
-			if d, err := hash.New().Hash(one); err == nil {
+			if d, err, crash := freeHash(one); err == nil && crash == "" {
 				shapes["first-twice"] = append(shapes["first-twice"], coll{strings.Join(desc, ", "), d})
 			}
 		}
@@ -651,7 +712,14 @@ func c04LongLists(run *ev.Run) int64 {
 	}
 	sort.Ints(ns)
 	for _, n := range ns {
-		check(fmt.Sprintf("free-running NumCPU=%d", runtime.NumCPU()), n, func(l []string) (string, error) { return hash.New().Hash(l) }, by)
+		check(fmt.Sprintf("free-running NumCPU=%d", runtime.NumCPU()), n, func(l []string) (string, error) {
+			d, err, crash := freeHash(l)
+			if crash != "" {
+				freeHashReport(run, fmt.Sprintf("list of %d files", len(l)), crash)
+				return "", fmt.Errorf("crashed")
+			}
+			return d, err
+		}, by)
 	}
 	// controlled NumCPU, default schedule
 	for cpu := 1; cpu <= 3; cpu++ {
